@@ -59,7 +59,8 @@ RULE = (
     "update threshold 5..20, initial point count; steps drawn from newTable / evaluate / derivative / "
     "extend / setExtrapolationType (16 pairs) / adaptive on-off / scheduleForInterpolation / burst of "
     "out-of-table evaluations sized to the update threshold / write+read round trip, with inputs of "
-    "shape scalar, list, 1-D, 2-D and region class inside, edge, below, above, both-out, mixed, "
+    "shape scalar, list, 1-D, 2-D, of float, integer (Python int, list of ints, int64/int32 arrays) or mixed "
+    "int/float type, and region class inside, edge, below, above, both-out, mixed, "
     "near-edge placed relative to the table observed at generation time (one evaluation in four repeats the "
     "previous call). Non-trivial = the history "
     "contains an evaluation or derivative with at least one out-of-range entry after at least one "
@@ -141,6 +142,8 @@ ASSUMPTIONS = [
     "the documentation (derivative stencils, newTable, NaN in a scalar batch) only the bounds L <= count "
     "<= U are used: no update while U < threshold, an update once L >= threshold.",
     "Table of fewer than 2 finite rows is a violated precondition and is not generated.",
+    "Inputs at a subnormal distance from a table edge (nextafter(0.0)) are not generated: an adaptive extension "
+    "to such a point creates a gap whose reciprocal overflows inside scipy's CubicSpline.",
     "Without a table, pending evaluations that are all the same point do not have to trigger an update "
     "(no table can be built from one abscissa) - but they must not raise either.",
 ]
@@ -239,14 +242,25 @@ def mode_enum(name):
 def build_x(step):
     """Reconstruct the input object from the step: scalar float, list, 1-D or 2-D array."""
     kind = step["shape"]
-    xs = [float(t) for t in step["x"]]
+    dtype = step.get("dtype", "float")
+    if dtype in ("int", "int32"):
+        # integer-valued input: Python int / list of ints / integer numpy array (whole dtype integer)
+        xs = [int(t) for t in step["x"]]
+        npdt = np.int32 if dtype == "int32" else np.int64
+    elif dtype == "mixed":
+        # Python list mixing ints and floats (JSON keeps 3 and 3.0 apart)
+        xs = [int(t) if isinstance(t, int) and not isinstance(t, bool) else float(t) for t in step["x"]]
+        npdt = float
+    else:
+        xs = [float(t) for t in step["x"]]
+        npdt = float
     if kind == "scalar":
         return xs[0]
     if kind == "list":
         return list(xs)
     if kind == "1d":
-        return np.array(xs, dtype=float)
-    return np.array(xs, dtype=float).reshape(tuple(step["dims"]))
+        return np.array(xs, dtype=npdt)
+    return np.array(xs, dtype=npdt).reshape(tuple(step["dims"]))
 
 
 def fd_dx(n, eps, scale):
@@ -412,7 +426,7 @@ class Runner:
 
     # -- bookkeeping ---------------------------------------------------------
     def lab(self, *labels):
-        self.labels.update(labels)
+        self.labels.update(lb for lb in labels if lb is not None)
 
     def chk(self, sub):
         if sub not in self._checked:
@@ -889,14 +903,18 @@ class Runner:
     def op_evaluate(self, s):
         x = build_x(s)
         xa = np.asarray(x, dtype=float)
-        self.last_eval = (s["shape"], s.get("dims"), list(s["x"]))
+        self.last_eval = (s["shape"], s.get("dims"), list(s["x"]), s.get("dtype", "float"))
         interp = bool(s.get("interp", True))
         tab0 = self.tab if self.has_table() else None
         below, above, direct = self._masks(tab0, xa, interp)
         region = self._region(below, above, direct)
         shape = {"scalar": "0d", "list": "list", "1d": "1d", "2d": "2d"}[s["shape"]]
         pair = f"{self.lo}/{self.hi}"
-        self.lab(f"shape:{shape}", f"eval-region:{region}")
+        dt = s.get("dtype", "float")
+        dtc = "" if dt == "float" else f" dtype={'int' if dt in ('int', 'int32') else dt}"
+        self.lab(f"shape:{shape}", f"eval-region:{region}", f"dtype:{dt}")
+        if dt != "float":
+            self.lab(f"eval-{dt}:{shape}-{region}", f"eval-nonfloat-pair:{pair}" if region != "inside" else None)
         want_err = self._expects_error(below, above, direct)
         batches = self._eval_batches(xa, below, above, direct) if self.adaptive else []
         has_out = region in ("mixed", "below", "above", "bothout")
@@ -926,7 +944,7 @@ class Runner:
                           f"adaptive update raised {type(exc).__name__}: {exc}")
                 return
             sub = "out-of-range-exception" if has_out else "inside-exception"
-            self.fail(sub, f"call=evaluate R={self.Rc} pair={pair} exc={type(exc).__name__}",
+            self.fail(sub, f"call=evaluate R={self.Rc} pair={pair} exc={type(exc).__name__}{dtc}",
                       f"evaluate raised {type(exc).__name__}: {exc}", x=s["x"], input=f"{shape}-{region}")
             return
         if want_err:
@@ -942,7 +960,7 @@ class Runner:
         self.chk("eval-shape")
         want_shape = xa.shape + ((self.R,) if self.R > 1 else ())
         if got.shape != want_shape:
-            self.fail("eval-shape", f"R={self.Rc} input={shape}",
+            self.fail("eval-shape", f"R={self.Rc} input={shape}{dtc}",
                       f"result shape {got.shape}, expected {want_shape}")
             return
         exp, tol, kind = self._expect_eval(tab0, xa, interp)
@@ -962,9 +980,10 @@ class Runner:
             xj = float(xa[m][j])
             if k >= 2:
                 side, mode = ("lower", self.lo) if k == 2 else ("upper", self.hi)
-                cls = f"call=evaluate R={self.Rc} side={side} mode={mode} update={'midcall' if fired else 'none'}"
+                cls = (f"call=evaluate R={self.Rc} side={side} mode={mode} "
+                       f"update={'midcall' if fired else 'none'}{dtc}")
             else:
-                cls = f"call=evaluate R={self.Rc}"
+                cls = f"call=evaluate R={self.Rc}{dtc}"
             self.fail(sub, cls,
                       f"at x={xj!r}: got {np.asarray(got[m][j]).tolist()!r}, expected "
                       f"{np.asarray(exp[m][j]).tolist()!r}", pair=pair, input=f"{shape}-{region}")
@@ -999,7 +1018,11 @@ class Runner:
         dx_args = fd_dx(n, eps, scale)
         # without a table the step comes from epsilon/scale (older trees ignored them there): both accepted
         dxs = sorted({fd_dx(n, 1e-16, 1.0), dx_args}) if direct else [dx_args]
-        self.lab(f"shape:{shape}", f"deriv-region:{region}", f"deriv-order:{n}")
+        dt = s.get("dtype", "float")
+        dtc = "" if dt == "float" else f" dtype={'int' if dt in ('int', 'int32') else dt}"
+        self.lab(f"shape:{shape}", f"deriv-region:{region}", f"deriv-order:{n}", f"dtype:{dt}")
+        if dt != "float":
+            self.lab(f"deriv-{dt}:{shape}-{region}")
         want_err = self._expects_error(below, above, direct)
         has_out = region in ("mixed", "below", "above", "bothout")
         if has_out:
@@ -1055,7 +1078,7 @@ class Runner:
             sub = "out-of-range-exception" if has_out else "inside-exception"
             icls = "mixed" if region == "mixed" else ("2d-out" if (shape == "2d" and has_out) else
                                                       ("out" if has_out else region))
-            self.fail(sub, f"call=derivative R={self.Rc} pair={pair} input={icls} exc={type(exc).__name__}",
+            self.fail(sub, f"call=derivative R={self.Rc} pair={pair} input={icls} exc={type(exc).__name__}{dtc}",
                       f"derivative(order={n}) raised {type(exc).__name__}: {exc}", x=s["x"],
                       input=f"{shape}-{region}")
             return
@@ -1072,7 +1095,7 @@ class Runner:
         self.chk("deriv-shape")
         want_shape = xa.shape + ((self.R,) if self.R > 1 else ())
         if got.shape != want_shape:
-            self.fail("deriv-shape", f"R={self.Rc} input={shape}",
+            self.fail("deriv-shape", f"R={self.Rc} input={shape}{dtc}",
                       f"result shape {got.shape}, expected {want_shape}")
             return
         ok = self._close(got, exp, tol)
@@ -1103,9 +1126,9 @@ class Runner:
             if sub == "out-of-range-value":
                 side, mode = ("lower", self.lo) if below[idx] else ("upper", self.hi)
                 nr = "near" if near[idx] else "far"
-                cls = f"call=derivative R={self.Rc} pair={pair} side={side} mode={mode} dist={nr}"
+                cls = f"call=derivative R={self.Rc} pair={pair} side={side} mode={mode} dist={nr}{dtc}"
             else:
-                cls = f"call=derivative R={self.Rc} order={n}"
+                cls = f"call=derivative R={self.Rc} order={n}{dtc}"
             self.fail(sub, cls,
                       f"order {n} at x={xj!r}: got {np.asarray(got[idx]).tolist()!r}, expected "
                       f"{np.asarray(exp[idx]).tolist()!r} (tolerance {np.asarray(tol[idx]).tolist()!r})",
@@ -1260,6 +1283,8 @@ class Runner:
     def op_schedule(self, s):
         x = build_x(s)
         xa = np.asarray(x, dtype=float)
+        if s.get("dtype", "float") != "float":
+            self.lab(f"schedule-dtype:{s['dtype']}")
         fx = f_exact(self.init, xa)
         exc = None
         try:
@@ -1473,6 +1498,8 @@ def _outside_point(draw, r, side, near_dx=None):
     if how == "ulp" and AVOID["extend_grid"] and r.adaptive and (r.lo if side == "below" else r.hi) == "NONE":
         how = "far"  # a pending point one ulp outside makes the next adaptive extension degenerate (D5)
     if how == "ulp":
+        if edge == 0.0:
+            return sgn * 1e-22  # nextafter(0) is subnormal: 1/dx overflows inside scipy, not a sane abscissa
         return float(np.nextafter(edge, sgn * np.inf))
     if how == "near":
         d = near_dx * draw(st.floats(0.01, 2.0))
@@ -1480,7 +1507,7 @@ def _outside_point(draw, r, side, near_dx=None):
         d = 10.0 ** draw(st.floats(-1.5, 0.5))
     x = edge + sgn * d
     if not (x < t.rmin or x > t.rmax):  # d vanished by rounding
-        x = float(np.nextafter(edge, sgn * np.inf))
+        x = float(np.nextafter(edge, sgn * np.inf)) if edge != 0.0 else sgn * 1e-22
     return float(x)
 
 
@@ -1514,6 +1541,62 @@ def _points(draw, r, region, count, near_dx=None):
     if region in ("mixed", "bothout") and count > 1:
         xs = list(draw(st.permutations(xs)))
     return xs
+
+
+def _points_int(draw, r, region, count):
+    """`count` Python ints of the requested region class (falls back to the nearest class that has integers)."""
+    if not r.has_table() or r.tab is None:
+        return [draw(st.integers(-6, 6)) for _ in range(count)]
+    t = r.tab
+    lo_in, hi_in = math.ceil(t.rmin), math.floor(t.rmax)       # integers inside (if lo_in <= hi_in)
+    b0 = math.ceil(t.rmin) - 1                                   # largest integer below the table
+    a0 = math.floor(t.rmax) + 1                                  # smallest integer above the table
+    xs = []
+    for i in range(count):
+        if region in ("inside", "edge"):
+            kind = "in"
+        elif region in ("below", "above"):
+            kind = region
+        elif region == "bothout":
+            kind = ["below", "above"][i % 2] if count > 1 else draw(st.sampled_from(["below", "above"]))
+        else:
+            kind = "in" if i == 0 else ("out" if i == 1 else draw(st.sampled_from(["in", "out"])))
+            if count == 1:
+                kind = draw(st.sampled_from(["in", "out"]))
+            if kind == "out":
+                kind = draw(st.sampled_from(["below", "above"]))
+        if kind == "in" and lo_in > hi_in:
+            kind = draw(st.sampled_from(["below", "above"]))      # no integer inside this table
+        if kind == "in":
+            if region == "edge" or draw(st.sampled_from([False, False, True])):
+                xs.append(draw(st.sampled_from([lo_in, hi_in])))  # the edge itself when it is an integer
+            else:
+                xs.append(draw(st.integers(lo_in, hi_in)))
+        elif kind == "below":
+            xs.append(b0 - draw(st.sampled_from([0, 0, 1, 2, 5])))
+        else:
+            xs.append(a0 + draw(st.sampled_from([0, 0, 1, 2, 5])))
+    if region in ("mixed", "bothout") and count > 1:
+        xs = list(draw(st.permutations(xs)))
+    return [int(v) for v in xs]
+
+
+def _typed_points(draw, r, region, count, shape, near_dx=None):
+    """Points plus the input dtype class: float | int | int32 (numpy arrays only) | mixed (lists only)."""
+    dtype = draw(st.sampled_from(["float", "float", "float", "int", "int", "int32", "mixed"]))
+    if dtype == "int32" and shape not in ("1d", "2d"):
+        dtype = "int"
+    if dtype == "mixed" and shape != "list":
+        dtype = "int"
+    if dtype == "float":
+        return _points(draw, r, region, count, near_dx), dtype
+    ints = _points_int(draw, r, region, count)
+    if dtype != "mixed" or count < 2:
+        return ints, ("int" if dtype == "mixed" else dtype)
+    flo = _points(draw, r, region, count, near_dx)
+    take = [draw(st.booleans()) for _ in range(count)]
+    take[0], take[1] = True, False                                # at least one int and one float
+    return [ints[i] if take[i] else flo[i] for i in range(count)], "mixed"
 
 
 def _pair_is_uniform(r):
@@ -1572,10 +1655,13 @@ def draw_evaluate(draw, r, region=None, burst=False):
         sides = [sd for sd, m in (("below", r.lo), ("above", r.hi)) if m == "NONE"] or ["below", "above"]
         region = draw(st.sampled_from(sides + (["bothout"] if len(sides) == 2 else [])))
         interp = True
-    xs = _points(draw, r, region, count)
+    if burst:
+        xs, dtype = _points(draw, r, region, count), "float"
+    else:
+        xs, dtype = _typed_points(draw, r, region, count, shape)
     last = getattr(r, "last_eval", None)
     if last is not None and not burst and draw(st.sampled_from([False, False, False, True])):
-        shape, dims, xs = last[0], last[1], list(last[2])  # the same call again (a natural usage pattern)
+        shape, dims, xs, dtype = last[0], last[1], list(last[2]), last[3]  # the same call again
     avoided = []
     bad = None
     for attempt in range(3):
@@ -1605,7 +1691,7 @@ def draw_evaluate(draw, r, region=None, burst=False):
                 shape, dims = ("1d", None)
                 xs = [xs[0], xs[0] + 0.25]
         elif tab is not None:
-            xs = _points(draw, r, "inside", len(xs))
+            xs, dtype = _points(draw, r, "inside", len(xs)), "float"
             interp = True if attempt else interp
         else:
             xs = [x + 0.0625 for x in xs]
@@ -1613,6 +1699,8 @@ def draw_evaluate(draw, r, region=None, burst=False):
         return {"op": "adaptive", "on": True, "avoided": avoided}  # last resort: clears the pending points
     step = {"op": "evaluate", "shape": shape, "x": xs, "interp": interp,
             "call": draw(st.sampled_from(["call", "evaluate"]))}
+    if dtype != "float":
+        step["dtype"] = dtype
     if dims:
         step["dims"] = dims
     if burst:
@@ -1638,7 +1726,7 @@ def draw_derivative(draw, r):
     near_dx = None
     if region == "near":
         region, near_dx = draw(st.sampled_from(["below", "above", "bothout"])), dx
-    xs = _points(draw, r, region, count, near_dx)
+    xs, dtype = _typed_points(draw, r, region, count, shape, near_dx)
     avoided = []
     tab = r.tab if r.has_table() else None
     bad = None
@@ -1675,7 +1763,7 @@ def draw_derivative(draw, r):
             break
         avoided.append(bad)
         if tab is not None:
-            xs = _points(draw, r, "inside", len(xs))
+            xs, dtype = _points(draw, r, "inside", len(xs)), "float"
             if direct:
                 interp = step["interp"] = True
         else:
@@ -1683,6 +1771,8 @@ def draw_derivative(draw, r):
     if bad is not None:
         return {"op": "adaptive", "on": True, "avoided": avoided}
     step["x"] = xs
+    if dtype != "float":
+        step["dtype"] = dtype
     if dims:
         step["dims"] = dims
     if avoided:
@@ -1693,6 +1783,10 @@ def draw_derivative(draw, r):
 def draw_new_table(draw, r):
     a = round(draw(st.floats(-6.0, 5.0)), 3)
     b = round(a + 10.0 ** draw(st.floats(-1.3, 0.9)), 3)
+    if draw(st.sampled_from([False, False, True])):
+        # integer table ends: integer-valued inputs then also hit the edges and the inside
+        a = float(draw(st.integers(-6, 5)))
+        b = a + float(draw(st.integers(1, 8)))
     n = draw(st.sampled_from([2, 3, 4, 5, 6, 8, 11, 16, 25, 40]))
     nb = r.nan_below
     if nb is not None:
@@ -1759,9 +1853,9 @@ def draw_schedule(draw, r):
     shape = draw(st.sampled_from(SHAPES))
     count, dims = _shape_dims(draw, shape)
     region = draw(st.sampled_from(["below", "above", "bothout", "mixed", "inside"]))
-    xs = _points(draw, r, region, count)
+    xs, dtype = _typed_points(draw, r, region, count, shape)
     avoided = []
-    slug = _predict_bad_update(r, [np.array(xs)])
+    slug = _predict_bad_update(r, [np.array(xs, dtype=float)])
     if slug and _switch(slug):
         avoided.append(slug)
         if slug == "D6-adaptive-degenerate":
@@ -1769,11 +1863,13 @@ def draw_schedule(draw, r):
             if len(xs) == 1:
                 shape, dims, xs = "1d", None, [xs[0], xs[0] + 0.25]
         else:
-            xs = _points(draw, r, "inside", len(xs))
-        slug = _predict_bad_update(r, [np.array(xs)])
+            xs, dtype = _points(draw, r, "inside", len(xs)), "float"
+        slug = _predict_bad_update(r, [np.array(xs, dtype=float)])
         if slug and _switch(slug):
             return {"op": "adaptive", "on": True, "avoided": avoided}
     step = {"op": "schedule", "shape": shape, "x": xs}
+    if dtype != "float":
+        step["dtype"] = dtype
     if dims:
         step["dims"] = dims
     if avoided:
